@@ -1,0 +1,162 @@
+#![allow(dead_code, missing_docs)]
+//! Export of the LR automaton exactly as the code generators receive it.
+//! (cargo feature `verif_hooks`; lives inside `lr1` to see its private modules)
+use super::core::Lr1State;
+use super::lookahead::{Token as tok, TokenSet};
+use super::{Lr1Tls, build_states};
+use crate::grammar::repr as r;
+use crate::normalize;
+use crate::verif_hooks::{hex, install, quiet_session};
+use crate::parser;
+use std::fmt::Write;
+
+/// Parses and normalizes `text`, builds the LR(1) states for every `pub` nonterminal with the
+/// algorithm the environment/attributes select, and prints grammar + automaton in a line format:
+///
+/// ```text
+/// grammar terminals=<n> error_terminal=<idx|none> nonterminals=<n> prods=<n> recovery=<bool> lalr=<bool> codegen=<..>
+/// terminal <idx> <hex name>
+/// nonterminal <idx> <hex name>
+/// prod <idx> <lhs nt idx> <sym>*            sym = t<idx> | n<idx>; idx order = reduce_indices
+/// automaton <hex user start> start_nt=<idx> start_prod=<idx> states=<n>   | conflicts <hex user start> <count>
+/// state <i>
+/// item <prod> <dot> <la>*                   la = t<idx> | eof | error
+/// shift <t idx> <state>
+/// reduce <prod> <la>*
+/// goto <nt idx> <state>
+/// ```
+/// or `error parse` / `error normalize <hex message>` on the first line.
+pub fn export_automaton(text: &str, features: Option<&[&str]>) -> String {
+    let (session, _tls) = install(quiet_session(features), text);
+    let grammar = match parser::parse_grammar(text) {
+        Ok(g) => g,
+        Err(_) => return "error parse\n".to_string(),
+    };
+    let grammar = match normalize::normalize(&session, grammar) {
+        Ok(g) => g,
+        Err(e) => return format!("error normalize {}\n", hex(&e.message)),
+    };
+    let mut out = String::new();
+    dump_grammar(&grammar, &mut out);
+    for (user_nt, start_nt) in &grammar.start_nonterminals {
+        let _lr1_tls = Lr1Tls::install(grammar.terminals.clone());
+        match build_states(&grammar, start_nt.clone()) {
+            Ok(states) => dump_states(&grammar, &user_nt.to_string(), start_nt, &states, &mut out),
+            Err(e) => {
+                writeln!(out, "conflicts {} {}", hex(&user_nt.to_string()), e.conflicts.len()).unwrap();
+            }
+        }
+    }
+    out
+}
+
+fn nt_index(grammar: &r::Grammar, nt: &r::NonterminalString) -> usize {
+    grammar.nonterminals.keys().position(|k| k == nt).unwrap()
+}
+
+fn prod_index(grammar: &r::Grammar, p: &r::Production) -> usize {
+    // same enumeration as `reduce_indices` in lr1/codegen/parse_table.rs
+    grammar
+        .nonterminals
+        .values()
+        .flat_map(|nt| &nt.productions)
+        .position(|q| q == p)
+        .unwrap()
+}
+
+fn sym(grammar: &r::Grammar, s: &r::Symbol) -> String {
+    match s {
+        r::Symbol::Terminal(t) => format!("t{}", grammar.terminals.bits[t]),
+        r::Symbol::Nonterminal(n) => format!("n{}", nt_index(grammar, n)),
+    }
+}
+
+fn dump_grammar(grammar: &r::Grammar, out: &mut String) {
+    let nprods: usize = grammar.nonterminals.values().map(|n| n.productions.len()).sum();
+    let err = grammar
+        .terminals
+        .all
+        .iter()
+        .position(|t| *t == r::TerminalString::Error)
+        .map(|i| i.to_string())
+        .unwrap_or_else(|| "none".to_string());
+    writeln!(
+        out,
+        "grammar terminals={} error_terminal={} nonterminals={} prods={} recovery={} lalr={} codegen={:?}",
+        grammar.terminals.all.len(),
+        err,
+        grammar.nonterminals.len(),
+        nprods,
+        grammar.uses_error_recovery,
+        grammar.algorithm.lalr,
+        grammar.algorithm.codegen,
+    )
+    .unwrap();
+    for (i, t) in grammar.terminals.all.iter().enumerate() {
+        writeln!(out, "terminal {} {}", i, hex(&t.to_string())).unwrap();
+    }
+    for (i, n) in grammar.nonterminals.keys().enumerate() {
+        writeln!(out, "nonterminal {} {}", i, hex(&n.to_string())).unwrap();
+    }
+    let mut idx = 0;
+    for (lhs, nt) in grammar.nonterminals.values().enumerate() {
+        for p in &nt.productions {
+            let syms: Vec<String> = p.symbols.iter().map(|s| sym(grammar, s)).collect();
+            writeln!(out, "prod {} {} {}", idx, lhs, syms.join(" ")).unwrap();
+            idx += 1;
+        }
+    }
+}
+
+fn las(grammar: &r::Grammar, set: &TokenSet) -> String {
+    let v: Vec<String> = set
+        .iter()
+        .map(|t| match t {
+            tok::Eof => "eof".to_string(),
+            tok::Error => "error".to_string(),
+            tok::Terminal(ref s) => format!("t{}", grammar.terminals.bits[s]),
+        })
+        .collect();
+    v.join(" ")
+}
+
+fn dump_states(
+    grammar: &r::Grammar,
+    user_nt: &str,
+    start_nt: &r::NonterminalString,
+    states: &[Lr1State<'_>],
+    out: &mut String,
+) {
+    let start_prod = prod_index(grammar, &grammar.nonterminals[start_nt].productions[0]);
+    writeln!(
+        out,
+        "automaton {} start_nt={} start_prod={} states={}",
+        hex(user_nt),
+        nt_index(grammar, start_nt),
+        start_prod,
+        states.len()
+    )
+    .unwrap();
+    for (i, st) in states.iter().enumerate() {
+        writeln!(out, "state {} index={}", i, st.index.0).unwrap();
+        for item in &st.items.vec {
+            writeln!(
+                out,
+                "item {} {} {}",
+                prod_index(grammar, item.production),
+                item.index,
+                las(grammar, &item.lookahead)
+            )
+            .unwrap();
+        }
+        for (t, s) in &st.shifts {
+            writeln!(out, "shift {} {}", grammar.terminals.bits[t], s.0).unwrap();
+        }
+        for (la, p) in &st.reductions {
+            writeln!(out, "reduce {} {}", prod_index(grammar, p), las(grammar, la)).unwrap();
+        }
+        for (n, s) in &st.gotos {
+            writeln!(out, "goto {} {}", nt_index(grammar, n), s.0).unwrap();
+        }
+    }
+}
